@@ -195,6 +195,7 @@ fn exec(ctx: &Arc<Ctx>, si: usize, op: &Op) {
             let idc = *id;
             log(Ev::Call { op: "add_subscriber", a: idc as i64 });
             let s = store.subscribe_with_selector(Sel, move |v: u32, a: Act| {
+                verif_rt::thread::yield_now();
                 log(Ev::Cb { kind: "sel_change", comp: idc, act: a.id, st: vec![], out: vec![], x: v as i64 });
             });
             log(Ev::Ret { op: "add_subscriber", a: idc as i64, ok: true, st: vec![] });
